@@ -1,5 +1,6 @@
 #![allow(dead_code, unused_imports)]
 mod c06;
+mod c07;
 mod c09;
 mod clock;
 mod disk;
@@ -64,6 +65,14 @@ fn plan(prop: &str, tier: &str, seed: u64) -> Plan {
                 extra: serde_json::json!({}),
             }
         }
+        "C07" => Plan {
+            batches: c07::batches(tier, seed),
+            level: "fault_enumeration",
+            rule: "one evaluation = one corrupted boot sector / FS-info sector (corrupt_at_rest fault) mounted and used under catch_unwind and a device-call budget; single-field faults are enumerated over the field's values, combinations are seeded; distinct = distinct (base, field, value, strictness) or distinct corrupted images".into(),
+            exhaustive: true,
+            assumptions: vec!["refdec::coherent is the independent coherence predicate (64-bit arithmetic, FAT specification)".into(), "exhaustive=true refers to every value of every 8- and 16-bit BPB field alone on three base volumes; 32-bit fields and combinations are sampled".into()],
+            extra: serde_json::json!({}),
+        },
         "C09" => Plan {
             batches: c09::batches(tier, seed),
             level: "fault_enumeration",
@@ -124,7 +133,7 @@ fn main() {
                 println!("  {:3} c{} {:?}{}", i, s.c, s.op, s.hard_at.map_or(String::new(), |k| format!(" !hard@{}", k)));
             }
             if rep.kind != "engine" {
-                let out = c06::replay(&rep.kind, rep.seed);
+                let out = c06::replay(&rep.kind, rep.seed).or_else(|| c07::replay(&rep.kind, rep.seed));
                 match out {
                     Some(o) => match o.violation {
                         Some((v, _)) => {
